@@ -36,7 +36,7 @@ ListVariants ==
   \cup {[Default EXCEPT !.pairs = q] : q \in SeqsUpTo(PairU)}
   \cup {[Default EXCEPT !.used = q] : q \in SeqsUpTo(UsedU)}
   \cup {[Default EXCEPT !.msgrs = q] : q \in SeqsUpTo(MsgrU)}
-Universe == {WithScalars(x, sc) : x \in ListVariants, sc \in (IF Thorough THEN Scalars ELSE {sc \in Scalars : sc.sr = 0 /\ sc.nextNonce = 3})}
+Universe == {WithScalars(x, sc) : x \in ListVariants, sc \in Scalars}
 
 Ledger0 == [bal |-> [a \in AddrSyms |-> 0], supply |-> 0]
 
